@@ -214,6 +214,7 @@ func c15Run(c *c15Case) (exp, act, sig string, ok bool) {
 
 type c15Answer struct {
 	Name  string
+	Setup string // a query run first (flags)
 	Query string // binds X
 	// the value: exactly one of
 	Int    *int64
@@ -251,6 +252,37 @@ func c15Answers() []c15Answer {
 		c15Answer{Name: "compound", Query: "X = f(a).", Other: true},
 		c15Answer{Name: "unbound", Query: "X = _.", Other: true},
 	)
+	// the same lists held in other internal representations (answers of built-ins, strings, lists
+	// completed after the fact)
+	ints3 := []c15Answer{{Int: i(1)}, {Int: i(2)}, {Int: i(300)}}
+	abc := []c15Answer{{Str: s("a")}, {Str: s("b")}, {Str: s("c")}}
+	codes := []c15Answer{{Int: i(97)}, {Int: i(98)}, {Int: i(300)}}
+	for _, r := range []struct {
+		name, q string
+		l       []c15Answer
+	}{
+		{"ints-append", "append([1], [2, 300], X).", ints3},
+		{"ints-findall", "findall(E, member(E, [1, 2, 300]), X).", ints3},
+		{"ints-partial-bound", "X = [1|T], T = [2, 300].", ints3},
+		{"ints-sort", "sort([300, 2, 1, 2], X).", ints3},
+		{"ints-univ", "f(1, 2, 300) =.. [_|X].", ints3},
+		{"ints-length", "length(X, 3), X = [1, 2|T], T = [300].", ints3},
+		{"chars-atom_chars", "atom_chars(abc, X).", abc},
+		{"chars-string", "X = \"abc\".", abc},
+		{"chars-string-tail", "X = [a|T], T = \"bc\".", abc},
+		{"codes-atom_codes", "atom_codes('abĬ', X).", codes},
+		{"codes-string", "X = \"abĬ\".", codes},
+		{"nested-repr", "atom_codes(a, A), findall(E, member(E, [1]), B), X = [A, [], B].", []c15Answer{{IsList: true, List: []c15Answer{{Int: i(97)}}}, {IsList: true}, {IsList: true, List: []c15Answer{{Int: i(1)}}}}},
+	} {
+		setup := ""
+		switch {
+		case strings.HasPrefix(r.name, "chars-string"):
+			setup = "set_prolog_flag(double_quotes, chars)."
+		case r.name == "codes-string":
+			setup = "set_prolog_flag(double_quotes, codes)."
+		}
+		out = append(out, c15Answer{Name: r.name, Setup: setup, Query: r.q, IsList: true, List: r.l})
+	}
 	return out
 }
 
@@ -345,6 +377,11 @@ func c15Scan(p *prolog.Interpreter, c *c15Case) (exp, act, sig string, ok bool) 
 		if x.Name == c.Val {
 			xx := x
 			a = &xx
+		}
+	}
+	if a.Setup != "" {
+		if err := p.QuerySolution(a.Setup).Err(); err != nil {
+			return "the setup query succeeds", err.Error(), "harness: setup", false
 		}
 	}
 	for _, carrier := range []string{"struct", "map", "two-vars-map"} {
@@ -504,7 +541,7 @@ func c15Replay(b []byte) (string, string, bool) {
 func init() {
 	h.Register(&h.Check{
 		ID: "C15",
-		Rule: "placeholders: ALL strings of length <= L over a 26-rune alphabet of syntax-significant characters (quotes, backslash, '.', ',', brackets, '|', '%', '?', ':', '-', space, newline, NUL, multi-byte, U+10FFFF, digit) plus strings that spell Prolog syntax, x double_quotes {codes, chars, atom, default} x 6 positions (top level, argument, list element, operand of a prefix operator, twice in one term, shared through a variable); integers of every Go width at their extremes, floats incl. +-max, denormal, -0.0, float32, nested slices/arrays; unsupported Go kinds must be rejected; every (placeholder count, argument count) pair in {0..3}^2 through Query and Exec. Scan: 49 answer values (integers around every width boundary, floats around the float32 range, atoms, lists proper/nested/mixed, partial and improper lists, compounds, unbound) x 16 destination types x 3 carriers (struct, map, map with a second list-valued variable). Distinct = case.",
+		Rule: "placeholders: ALL strings of length <= L over a 26-rune alphabet of syntax-significant characters (quotes, backslash, '.', ',', brackets, '|', '%', '?', ':', '-', space, newline, NUL, multi-byte, U+10FFFF, digit) plus strings that spell Prolog syntax, x double_quotes {codes, chars, atom, default} x 6 positions (top level, argument, list element, operand of a prefix operator, twice in one term, shared through a variable); integers of every Go width at their extremes, floats incl. +-max, denormal, -0.0, float32, nested slices/arrays; unsupported Go kinds must be rejected; every (placeholder count, argument count) pair in {0..3}^2 through Query and Exec. Scan: 61 answer values (integers around every width boundary, floats around the float32 range, atoms, lists proper/nested/mixed, partial and improper lists, compounds, unbound, and the same lists as answers of append/findall/sort/=../length, atom_chars/atom_codes and double-quoted strings) x 16 destination types x 3 carriers (struct, map, map with a second list-valued variable). Distinct = case.",
 		Explanation: "state = one (Go value, context) pair; transition = one Query with placeholders (the term bound to X is captured structurally and must equal the term the literal with exactly those runes denotes, so nothing in the string can have been read as syntax), or one Scan (the stored Go value must represent the answer exactly, or Scan returns an error)",
 		Assumptions: []string{"a float32 destination may hold the nearest float32 of a value that is not representable; overflow to infinity or flush to zero must be an error", "a string destination may hold the text of any term"},
 		Work:        c15Work,
